@@ -891,6 +891,9 @@ func clusterScenario(in input) clusterOut {
 	hold := make(chan struct{})
 	var gate *lib.Gate
 	failTree := c.tree
+	traceMark := 0
+	wantAfter := n
+	var pair *onet.Roster
 	treeReq := in.Moment == "treereq" || in.Moment == "treereqlost"
 	vov := victim.VerifOverlay()
 	switch in.Moment {
@@ -904,7 +907,12 @@ func clusterScenario(in input) clusterOut {
 	case "treereq", "treereqlost":
 		// the failing run is rooted at the victim; a survivor that does not know the tree is held
 		// after it marked the tree as requested and before the request goes out
-		failTree = c.roster.GenerateNaryTreeWithRoot(in.BF, victim.ServerIdentity)
+		// (a two-node tree: with more nodes other survivors can be caught with an unanswered request
+		// of their own when the victim dies, which is finding C09-N2 and not this scenario)
+		pair = c.lt.GenRosterFromHost(victim, c.servers[0])
+		failTree = pair.GenerateNaryTreeWithRoot(in.BF, victim.ServerIdentity)
+		wantAfter = 2
+		traceMark = len(sched.Trace())
 		gate = sched.Block("overlay.registered", 1, func(args []interface{}) bool {
 			o, ok := args[0].(*onet.Overlay)
 			return ok && o != vov
@@ -979,7 +987,7 @@ func clusterScenario(in input) clusterOut {
 	}
 	var heldOv *onet.Overlay
 	if treeReq {
-		for _, e := range sched.Trace() {
+		for _, e := range sched.Trace()[traceMark:] {
 			if e.Point == "overlay.registered" && len(e.Args) > 0 {
 				if o, ok := e.Args[0].(*onet.Overlay); ok && o != vov {
 					heldOv = o
@@ -1034,7 +1042,7 @@ func clusterScenario(in input) clusterOut {
 	// them while shutting down and dropped the connection without closing it
 	time.Sleep(300 * time.Millisecond)
 	for i, s := range c.servers {
-		if i != v && s.Router.VerifConnections()[victim.ServerIdentity.GetID()] > 0 {
+		if i != v && i != heldIdx && s.Router.VerifConnections()[victim.ServerIdentity.GetID()] > 0 {
 			out.Zombie = append(out.Zombie, i)
 		}
 	}
@@ -1063,12 +1071,12 @@ func clusterScenario(in input) clusterOut {
 	fresh := c.roster.GenerateNaryTreeWithRoot(in.BF, c.servers[0].ServerIdentity)
 	if treeReq {
 		// the same tree (same id) as the run that failed, rooted at the restarted peer
-		fresh = c.roster.GenerateNaryTreeWithRoot(in.BF, nv.ServerIdentity)
+		fresh = pair.GenerateNaryTreeWithRoot(in.BF, nv.ServerIdentity)
 	}
-	out.AfterRestart = startRun(c, fresh, 5) && waitRun(5, n, 12*time.Second)
+	out.AfterRestart = startRun(c, fresh, 5) && waitRun(5, wantAfter, 12*time.Second)
 	if !out.AfterRestart {
 		// one more try: the first run after a restart may meet a connection whose death was not yet noticed (TCP)
-		out.AfterRestart = startRun(c, fresh, 6) && waitRun(6, n, 12*time.Second)
+		out.AfterRestart = startRun(c, fresh, 6) && waitRun(6, wantAfter, 12*time.Second)
 	}
 	canary(7)
 	return out
